@@ -113,7 +113,24 @@ fn set_altgr_any(cells: &mut [Cell], keys: &[KeyCode]) {
     }
 }
 
+/// The national ISO layouts (UK, DE, FR, NO, FI/SE) exist in several editions whose AltGr
+/// layers differ (Windows KBDxx vs xkb vs DIN 2137 / SFS 5966 / NF Z71-300): a key on which the
+/// Windows edition prints no AltGr character may carry one in another edition (FI/SE AltGr+ö = ø
+/// in SFS 5966 and xkb). Only the AltGr characters all editions agree on are required; a key
+/// without one is unconstrained there. US, Dvorak and JIS have no AltGr layer in any edition.
 pub fn table(l: usize) -> Vec<Cell> {
+    let mut t = table_windows(l);
+    if matches!(l, L_UK | L_DE | L_FR | L_NO | L_FISE) {
+        for c in t.iter_mut() {
+            if c.altgr == AltGrWant::NoLevel {
+                c.altgr = AltGrWant::Any;
+            }
+        }
+    }
+    t
+}
+
+fn table_windows(l: usize) -> Vec<Cell> {
     match l {
         L_US => rows(
             [
